@@ -1,5 +1,67 @@
-(* Props/C03.v — placeholder; delete theorems are added from Proofs/DeleteProofs.v. *)
-From YQ Require Import Base.Str Model.Node Model.Store Model.Eval.
-Theorem C03_selfcheck : forall st, eval 1 ESelf false [] [] st = Ok ([], st).
-Proof. reflexivity. Qed.
-Print Assumptions C03_selfcheck.
+(* Props/C03.v — property theorems only. *)
+From Coq Require Import Arith Sorted.
+From YQ Require Import Base.Str Model.Node Model.Store Model.Eval Spec.Lens Proofs.DeleteProofs.
+
+(* Deleting a sequence element removes exactly that element: all others keep
+   value and relative order ... *)
+Theorem C03_remove_item_exact : forall items p,
+  List.map snd (remove_item items p O 0) = drop_at p (List.map snd items).
+Proof. exact remove_item_exact. Qed.
+Print Assumptions C03_remove_item_exact.
+
+(* ... and the survivors are renumbered 0,1,2,... so the sequence stays well-keyed *)
+Theorem C03_survivors_renumbered : forall items victim pos kept,
+  Forall (fun kc => exists i, fst kc = RIdx i) items ->
+  well_keyed_from kept (remove_item items victim pos kept).
+Proof. exact remove_item_keys. Qed.
+Print Assumptions C03_survivors_renumbered.
+
+(* Deleting a map entry (unique keys) removes exactly that entry *)
+Theorem C03_remove_entry_exact : forall es k i,
+  unique_keys es -> find_idx es k = Some i -> remove_entries es k = drop_at i es.
+Proof. exact remove_entries_exact. Qed.
+Print Assumptions C03_remove_entry_exact.
+
+(* deleteChildOperator's loop on one selected sequence child / map entry:
+   only the parent container changes, by exactly that removal *)
+Theorem C03_del_one_seq : forall fuel r q i st items cx,
+  deref st (r, q) = Some (Seq items) -> (i < length items)%nat ->
+  del_loop (S fuel) [(r, q ++ [i])] cx st =
+  Ok (shift_ptrs (r, q) [i] cx, update st (r, q) (fun _ => Seq (remove_item items i O 0))).
+Proof. exact del_loop_one_seq. Qed.
+Print Assumptions C03_del_one_seq.
+
+Theorem C03_del_one_map : forall fuel r q i st es k c cx,
+  deref st (r, q) = Some (Map es) -> nth_error es i = Some (k, c) ->
+  del_loop (S fuel) [(r, q ++ [i])] cx st =
+  Ok (shift_ptrs (r, q) (removed_entries es k O) cx, update st (r, q) (fun _ => Map (remove_entries es k))).
+Proof. exact del_loop_one_map. Qed.
+Print Assumptions C03_del_one_map.
+
+(* Several elements of one sequence, any number, visited back to front (how a
+   selection made in document order is processed): each is removed at its
+   original index, "those elements, not their neighbours".  Other visiting
+   orders (unions written in another order) go through the pointer shifting of
+   the model and are tied by the correspondence check: partial. *)
+Theorem C03_del_many_back_to_front_partial : forall r q ps items st cx fuel,
+  deref st (r, q) = Some (Seq items) ->
+  StronglySorted gt ps -> Forall (fun p => (p < length items)%nat) ps -> (length ps <= fuel)%nat ->
+  exists cx' items',
+    del_loop fuel (List.map (fun p => (r, q ++ [p])) ps) cx st = Ok (cx', update st (r, q) (fun _ => Seq items'))
+    /\ List.map snd items' = fold_left (fun l p => drop_at p l) ps (List.map snd items).
+Proof. exact del_loop_desc. Qed.
+Print Assumptions C03_del_many_back_to_front_partial.
+
+(* non-vacuity and the formerly failing witnesses (now repaired in /repo and in the model):
+   delete on a re-ordered container removes the selected element, and a node selected twice is deleted once *)
+Example C03_example_sorted :
+  run (EPipe (ESortBy ESelf) (EDel (EIndex ESelf (Some (ELit TInt [48])))))
+      (Seq [(RIdx 0, Scalar TInt [51]); (RIdx 1, Scalar TInt [49]); (RIdx 2, Scalar TInt [50])])
+  = tag_ok ++ ser_node (Seq [(RIdx 0, Scalar TInt [50]); (RIdx 1, Scalar TInt [51])]) ++ [10].
+Proof. vm_compute. reflexivity. Qed.
+
+Example C03_example_twice :
+  run (EDel (EUnion (EIndex ESelf (Some (ELit TInt [48]))) (EIndex ESelf (Some (ELit TInt [48])))))
+      (Seq [(RIdx 0, Scalar TInt [49]); (RIdx 1, Scalar TInt [50]); (RIdx 2, Scalar TInt [51])])
+  = tag_ok ++ ser_node (Seq [(RIdx 0, Scalar TInt [50]); (RIdx 1, Scalar TInt [51])]) ++ [10].
+Proof. vm_compute. reflexivity. Qed.
